@@ -65,3 +65,19 @@ theorem drain_mem (m : Mem) (len s e : Nat) (hse : s ≤ e) (hel : e ≤ len) (h
   grind
 
 end AnyVec
+
+namespace AnyVec
+theorem ensure_get (m : Mem) (n j : Nat) : (m.ensure n).get j = m.get j := by
+  simp only [Mem.get_eq, ensure_getElem?]
+  split
+  · rfl
+  · rename_i h
+    have : m[j]? = none := by simp; omega
+    split <;> simp [this]
+
+theorem get_set_ne (m : Mem) (i j : Nat) (c : Cell) (h : i ≠ j) : Mem.get (m.set i c) j = m.get j := by
+  simp [Mem.get_eq, List.getElem?_set, h]
+
+theorem get_set_self (m : Mem) (i : Nat) (c : Cell) (h : i < m.length) : Mem.get (m.set i c) i = c := by
+  simp [Mem.get_eq, List.getElem?_set, h]
+end AnyVec
